@@ -98,6 +98,28 @@ def run():
     add('FLJ', allt, 4096)
     add('FLJ', b'{' + b','.join(b'"#' + l.encode() + b'":["v"]' for l in jsongen.LETTERS[:32]) + b'}', 4096)
     add('FLJ', b'{' + b','.join(b'"#' + l.encode() + b'":["v"]' for l in jsongen.LETTERS[:33]) + b'}', 4096)
+    # --- texts on which the skipping pass (bytes) and the decoding pass (lenient code points) disagree about where a
+    # string ends: a UTF-8 lead byte right before a closing quote swallows the quote (and 1-2 more bytes)
+    for lead in (b'\xc3', b'\xdf', b'\xe2', b'\xef', b'\xf0', b'\xf4'):
+        for first in (b'x', b'', b'ab'):
+            for mid in (b'', b',["a"]', b',[]', b',["a","b"]'):
+                for tail in (b'"]]"', b'"],[]]"', b'"]]}"', b'"],["', b'"]', b'"]],"content":"'):
+                    t = b'[["' + first + lead + b'"]' + mid + b',[' + tail + b']]'
+                    add('TGJ', t, 1024)
+                    add('EVJ', SAMPLE_EVENT[:SAMPLE_EVENT.find(b'"tags"')] + b'"tags":' + t + b'}', 4096)
+                    add('EVJ', b'{"tags":' + t + b',' + SAMPLE_EVENT[1:SAMPLE_EVENT.find(b',"tags"')] + b'}', 4096)
+                    add('FLJ', b'{"#e":["' + first + lead + b'"],"#p":[' + tail + b']}', 1024)
+                    add('FLJ', b'{"#e":["' + first + lead + b'",' + tail + b'],"kinds":[1]}', 1024)
+    # --- NIP-45 count filters: `hyperloglog_offset` reads character 32 of the single tag value; every byte class there
+    h32 = b'0123456789abcdef0123456789abcdef'
+    for kind, letter in ((3, b'p'), (7, b'e'), (3, b'e'), (1, b'p')):
+        for mid in [bytes([x]) for x in (0x30, 0x39, 0x61, 0x66, 0x41, 0x46, 0x67, 0x47, 0x2f, 0x3a, 0x40, 0x60, 0x20, 0x7f, 0x01)] + \
+                   [b'\xc3\xa9', b'\xe2\x82\xac', b'\xf0\x9f\x98\x80', b'\\u00e9', b'\\n']:
+            wide = len(mid) if not mid.startswith(b'\\') else (2 if mid == b'\\u00e9' else 1)
+            val = h32 + mid + b'f' * (64 - 32 - wide)
+            for extra in (b'', b',"limit":5', b',"since":1'):
+                add('FLJ', b'{"#' + letter + b'":["' + val + b'"],"kinds":[' + str(kind).encode() + b']' + extra + b'}', 512)
+        add('FLJ', b'{"#' + letter + b'":["' + h32 + b'"],"kinds":[' + str(kind).encode() + b']}', 512)
     # --- unescape / hex / addr
     for _ in range(300 if Q else 5000):
         s = jsongen.spell_string(rng, jsongen.rand_string(rng, 20))[1:]
